@@ -1,6 +1,7 @@
 import FalconModel.Ws
 /-! C17: every trace of events that `_handle_websocket` gets the server to accept is a word of the ASGI WebSocket
-    send-side automaton — for every responder script, client script, fault position and configuration. -/
+    send-side automaton — for every responder / middleware / error-handler script, client script, fault position and
+    kind, configuration, and every sequence of observed disconnect-flag values. -/
 namespace Ws
 
 /-- the ASGI server's view of the send side -/
@@ -8,7 +9,7 @@ inductive M where | connecting | opened | done
 deriving DecidableEq, Repr
 
 def M.step : M → Ev → Option M
-  | .connecting, .accept _ => some .opened
+  | .connecting, .accept _ _ => some .opened
   | .opened, .send _ => some .opened
   | .connecting, .close _ _ => some .done     -- denial: the server answers the handshake with 403
   | .opened, .close _ _ => some .done
@@ -44,13 +45,69 @@ theorem okEvents_snoc (l : List (Ev × Bool)) (e : Ev) (ok : Bool) :
 theorem Inv.init (w : W) (h1 : w.st = .handshake) (h2 : w.sent = []) : Inv w :=
   ⟨⟨.connecting, by rw [h2]; rfl, fun _ => rfl, fun h => by rw [h1] at h; cases h⟩⟩
 
-/-- sending `e` is legal when the automaton, in the state the model believes it is in, accepts `e` -/
-theorem asgiSend_spec (w : W) (e : Ev) :
-    (w.asgiSend e).1.st = w.st ∧ (w.asgiSend e).1.closeCode = w.closeCode ∧
-    (w.asgiSend e).1.sent = w.sent ++ [(e, (w.asgiSend e).2)] := by
-  unfold W.asgiSend; simp
+/-- nothing reached the server and the state stayed or moved to `closed` -/
+theorem Inv.weaken {w w' : W} (hi : Inv w) (h1 : okEvents w'.sent = okEvents w.sent)
+    (h2 : w'.st = w.st ∨ w'.st = .closed) : Inv w' := by
+  obtain ⟨m, hm, hh, ha⟩ := hi.legal
+  refine ⟨⟨m, by rw [h1]; exact hm, ?_, ?_⟩⟩
+  · intro h; rcases h2 with h2 | h2
+    · exact hh (h2 ▸ h)
+    · rw [h2] at h; cases h
+  · intro h; rcases h2 with h2 | h2
+    · exact ha (h2 ▸ h)
+    · rw [h2] at h; cases h
 
-theorem accept_inv (w : W) (h : Bool) (hi : Inv w) : Inv (w.accept none h).1 := by
+/-- one event reached the server, and the automaton (in the state the model believes it is in) accepts it -/
+theorem Inv.sendOk {w w' : W} (hi : Inv w) (e : Ev) (m' : M)
+    (h1 : okEvents w'.sent = okEvents w.sent ++ [e])
+    (hstep : ∀ m : M, (w.st = .handshake → m = M.connecting) → (w.st = .accepted → m = M.opened) → m.step e = some m' ∨ w.st = .closed)
+    (hnc : w.st ≠ .closed)
+    (h2 : (w'.st = .handshake → m' = .connecting) ∧ (w'.st = .accepted → m' = .opened)) : Inv w' := by
+  obtain ⟨m, hm, hh, ha⟩ := hi.legal
+  refine ⟨⟨m', ?_, h2.1, h2.2⟩⟩
+  rw [h1, run_append, hm]
+  rcases hstep m hh ha with h | h
+  · simp [M.run, h]
+  · exact absurd h hnc
+
+theorem asgiSend_st (w : W) (e : Ev) : (w.asgiSend e).1.st = w.st := rfl
+theorem asgiSend_sent (w : W) (e : Ev) : (w.asgiSend e).1.sent = w.sent ++ [(e, (w.asgiSend e).2)] := rfl
+
+/-- `_send`: either nothing reached the server (state kept or `closed`, an exception is raised), or exactly `e` did, the
+    state is kept and was not `closed` -/
+theorem send_spec (w : W) (d : Option Int) (e : Ev) :
+    (okEvents (w.send_ d e).1.sent = okEvents w.sent ∧ ((w.send_ d e).1.st = w.st ∨ (w.send_ d e).1.st = .closed)
+      ∧ (w.send_ d e).2 ≠ none)
+    ∨ (okEvents (w.send_ d e).1.sent = okEvents w.sent ++ [e] ∧ (w.send_ d e).1.st = w.st ∧ (w.send_ d e).2 = none
+      ∧ w.st ≠ .closed) := by
+  unfold W.send_
+  cases d with
+  | some c => left; simp
+  | none =>
+    simp only
+    by_cases hc : w.st = .closed
+    · left; simp [hc]
+    · have hc' : (w.st == S.closed) = false := by simpa using hc
+      simp only [hc', Bool.false_eq_true, if_false]
+      have hs := asgiSend_sent w e
+      have ht := asgiSend_st w e
+      rcases hsend : w.asgiSend e with ⟨w1, ok⟩
+      rw [hsend] at hs ht
+      simp only at hs ht
+      cases ok with
+      | true =>
+        right
+        simp only [if_true]
+        refine ⟨?_, ht, ?_, hc⟩
+        · rw [hs, okEvents_snoc]; rfl
+        · trivial
+      | false =>
+        left
+        simp only [Bool.false_eq_true, if_false]
+        have hok : okEvents w1.sent = okEvents w.sent := by rw [hs, okEvents_snoc]; rfl
+        cases w1.fault <;> simp [hok, ht]
+
+theorem accept_inv (w : W) (d : Option Int) (h s b : Bool) (hi : Inv w) : Inv (w.accept d h s b).1 := by
   unfold W.accept
   split
   · exact hi
@@ -58,69 +115,80 @@ theorem accept_inv (w : W) (h : Bool) (hi : Inv w) : Inv (w.accept none h).1 := 
   · exact hi
   split
   · exact hi
-  rename_i hc hs _
+  split
+  · exact hi
+  rename_i hc hs _ _
   have hst : w.st = .handshake := by simpa using hs
-  obtain ⟨m, hm, hh, _⟩ := hi.legal
-  have hmc := hh hst
-  subst hmc
-  unfold W.send_
-  simp only [hst]
-  have hne : ((S.handshake == S.closed) = false) := by decide
-  simp only [hne, Bool.false_eq_true, if_false]
-  obtain ⟨s1, s2, s3⟩ := asgiSend_spec w (.accept h)
-  cases hok : (w.asgiSend (.accept h)).2
-  · -- the send raised: marked closed, nothing delivered
-    simp only [Bool.false_eq_true, if_false]
-    refine ⟨⟨.connecting, ?_, fun h => by simp at h, fun h => by simp at h⟩⟩
-    show M.run .connecting (okEvents (w.asgiSend (.accept h)).1.sent) = _
-    rw [s3, hok, okEvents_snoc]; simpa using hm
-  · simp only [if_true]
-    refine ⟨⟨.opened, ?_, fun h => by simp at h, fun _ => rfl⟩⟩
-    show M.run .connecting (okEvents (w.asgiSend (.accept h)).1.sent) = _
-    rw [s3, hok, okEvents_snoc]; simp only [if_true]
-    rw [run_append, hm]; rfl
+  rcases send_spec w d (.accept h s) with ⟨h1, h2, h3⟩ | ⟨h1, h2, h3, h4⟩
+  · rcases hr : w.send_ d (.accept h s) with ⟨w1, eo⟩
+    rw [hr] at h1 h2 h3
+    cases eo with
+    | none => exact absurd rfl h3
+    | some e => exact hi.weaken h1 h2
+  · rcases hr : w.send_ d (.accept h s) with ⟨w1, eo⟩
+    rw [hr] at h1 h2 h3
+    simp only at h1 h2 h3
+    subst h3
+    refine hi.sendOk (.accept h s) .opened h1 ?_ h4 ⟨fun hh => by simp at hh, fun _ => rfl⟩
+    intro m hh _
+    left; rw [hh hst]; rfl
 
-theorem closeGo_inv (w : W) (code : Int) (hi : Inv w) : Inv (W.close.go none w code).1 := by
+theorem closeGo_inv (w : W) (d : Option Int) (r : Bool) (code : Int) (hi : Inv w) : Inv (W.close.go d r w code).1 := by
   unfold W.close.go
   split
   · exact hi
   rename_i hc
   have hnc : w.st ≠ .closed := by
     intro h; apply hc; simp [W.isClosed, h]
-  obtain ⟨m, hm, hh, ha⟩ := hi.legal
-  obtain ⟨s1, s2, s3⟩ := asgiSend_spec w (.close code (w.reasonCodes.contains code && w.supReason))
-  rcases hsend : w.asgiSend (.close code (w.reasonCodes.contains code && w.supReason)) with ⟨w1, ok⟩
-  rw [hsend] at s1 s2 s3
-  simp only at s1 s2 s3
-  cases ok
-  · refine ⟨⟨m, ?_, ?_, ?_⟩⟩
-    · show M.run .connecting (okEvents w1.sent) = some m
-      rw [s3, okEvents_snoc]; simpa using hm
-    · show w1.st = .handshake → _
-      rw [s1]; exact hh
-    · show w1.st = .accepted → _
-      rw [s1]; exact ha
-  · refine ⟨⟨.done, ?_, fun h => by simp at h, fun h => by simp at h⟩⟩
-    show M.run .connecting (okEvents w1.sent) = some .done
-    rw [s3, okEvents_snoc]; simp only [if_true]
-    rw [run_append, hm]
+  generalize hev : Ev.close code ((r || w.reasonCodes.contains code) && w.supReason) = ev
+  have hs := asgiSend_sent w ev
+  have ht := asgiSend_st w ev
+  rcases hsend : w.asgiSend ev with ⟨w1, ok⟩
+  rw [hsend] at hs ht
+  simp only at hs ht
+  cases ok with
+  | false =>
+    simp only [Bool.false_eq_true, if_false]
+    exact hi.weaken (by rw [hs, okEvents_snoc]; rfl) (Or.inl ht)
+  | true =>
+    simp only [if_true]
+    refine hi.sendOk ev .done (by show okEvents w1.sent = _; rw [hs, okEvents_snoc]; rfl) ?_ hnc
+      ⟨fun hh => by simp at hh, fun hh => by simp at hh⟩
+    intro m hh ha
     cases hst : w.st with
-    | handshake => rw [hh hst]; rfl
-    | accepted => rw [ha hst]; rfl
-    | closed => exact absurd hst hnc
+    | handshake => left; rw [hh hst, ← hev]; rfl
+    | accepted => left; rw [ha hst, ← hev]; rfl
+    | closed => right; rfl
 
-theorem close_inv (w : W) (a : CodeArg) (hi : Inv w) : Inv (w.close none a).1 := by
-  unfold W.close
+/-- marking the pump as stopped changes neither the state nor what was sent -/
+theorem stopPump_st (w : W) : w.stopPump.st = w.st := by unfold W.stopPump; split <;> rfl
+theorem stopPump_sent (w : W) : w.stopPump.sent = w.sent := by unfold W.stopPump; split <;> rfl
+theorem stopPump_failAt (w : W) : w.stopPump.failAt = w.failAt := by unfold W.stopPump; split <;> rfl
+theorem stopPump_reasonCodes (w : W) : w.stopPump.reasonCodes = w.reasonCodes := by unfold W.stopPump; split <;> rfl
+theorem stopPump_supReason (w : W) : w.stopPump.supReason = w.supReason := by unfold W.stopPump; split <;> rfl
+theorem stopPump_errCloseCode (w : W) : w.stopPump.errCloseCode = w.errCloseCode := by unfold W.stopPump; split <;> rfl
+
+theorem Inv.stopPump {w : W} (hi : Inv w) : Inv w.stopPump := by
+  unfold W.stopPump
   split
+  · exact hi.weaken rfl (Or.inl rfl)
   · exact hi
-  · split
-    · exact hi
-    · split
-      · exact hi
-      · exact closeGo_inv w _ hi
-  · exact closeGo_inv w _ hi
 
-theorem sendMsg_inv (w : W) (k : Kind) (hi : Inv w) : Inv (w.sendMsg none k).1 := by
+theorem close_inv (w : W) (d : Option Int) (a : CodeArg) (r : Bool) (hi : Inv w) : Inv (w.close d a r).1 := by
+  unfold W.close
+  have hi' := hi.stopPump
+  generalize w.stopPump = w0 at hi'
+  simp only
+  split
+  · exact hi'
+  · split
+    · exact hi'
+    · split
+      · exact hi'
+      · exact closeGo_inv w0 d r _ hi'
+  · exact closeGo_inv w0 d r _ hi'
+
+theorem sendMsg_inv (w : W) (d : Option Int) (k : Kind) (hi : Inv w) : Inv (w.sendMsg d k).1 := by
   unfold W.sendMsg
   split
   · exact hi
@@ -129,74 +197,57 @@ theorem sendMsg_inv (w : W) (k : Kind) (hi : Inv w) : Inv (w.sendMsg none k).1 :
     unfold W.requireAccepted at hreq
     cases h : w.st <;> simp [h] at hreq
     rfl
-  obtain ⟨m, hm, _, ha⟩ := hi.legal
-  have hmo := ha hst
-  subst hmo
-  unfold W.send_
-  simp only [hst]
-  have hne : ((S.accepted == S.closed) = false) := by decide
-  simp only [hne, Bool.false_eq_true, if_false]
-  obtain ⟨s1, s2, s3⟩ := asgiSend_spec w (.send k)
-  cases hok : (w.asgiSend (.send k)).2
-  · simp only [Bool.false_eq_true, if_false]
-    refine ⟨⟨.opened, ?_, fun h => by simp at h, fun h => by simp at h⟩⟩
-    show M.run .connecting (okEvents (w.asgiSend (.send k)).1.sent) = _
-    rw [s3, hok, okEvents_snoc]; simpa using hm
-  · simp only [if_true]
-    refine ⟨⟨.opened, ?_, ?_, fun _ => rfl⟩⟩
-    · rw [s3, hok, okEvents_snoc]; simp only [if_true]
-      rw [run_append, hm]; rfl
-    · rw [s1, hst]; intro h; cases h
+  rcases send_spec w d (.send k) with ⟨h1, h2, _⟩ | ⟨h1, h2, _, h4⟩
+  · exact hi.weaken h1 h2
+  · refine hi.sendOk (.send k) .opened h1 ?_ h4 ⟨fun hh => (by rw [h2, hst] at hh; cases hh), fun _ => rfl⟩
+    intro m _ ha
+    left; rw [ha hst]; rfl
+
+theorem receive_spec (w : W) : w.receive_.1.sent = w.sent ∧ (w.receive_.1.st = w.st ∨ w.receive_.1.st = .closed) := by
+  unfold W.receive_
+  split
+  · exact ⟨rfl, Or.inl rfl⟩
+  · exact ⟨rfl, Or.inr rfl⟩
+  · exact ⟨rfl, Or.inl rfl⟩
 
 theorem recv_inv (w : W) (k : RecvKind) (hi : Inv w) : Inv (w.recv k).1 := by
-  have key : ∀ w', (w'.sent = w.sent ∧ (w'.st = w.st ∨ w'.st = .closed)) → Inv w' := by
-    intro w' ⟨h1, h2⟩
-    obtain ⟨m, hm, hh, ha⟩ := hi.legal
-    refine ⟨⟨m, by rw [h1]; exact hm, ?_, ?_⟩⟩
-    · intro h; rcases h2 with h2 | h2
-      · exact hh (h2 ▸ h)
-      · rw [h2] at h; cases h
-    · intro h; rcases h2 with h2 | h2
-      · exact ha (h2 ▸ h)
-      · rw [h2] at h; cases h
+  have hr := receive_spec w
+  have key : Inv w.receive_.1 := hi.weaken (by rw [hr.1]) hr.2
   unfold W.recv
   split
   · exact hi
-  · have hr : (w.receive_.1.sent = w.sent ∧ (w.receive_.1.st = w.st ∨ w.receive_.1.st = .closed)) := by
-      unfold W.receive_
-      split
-      · exact ⟨rfl, Or.inl rfl⟩
-      · exact ⟨rfl, Or.inr rfl⟩
-      · exact ⟨rfl, Or.inl rfl⟩
-    split
-    · rename_i w1 e heq
-      have : w1 = w.receive_.1 := by rw [heq]
-      rw [this]; exact key _ hr
-    · rename_i w1 ev heq
-      have : w1 = w.receive_.1 := by rw [heq]
-      subst this
-      split <;> exact key _ hr
+  · split
+    · exact hi
+    · split
+      · rename_i w1 e heq
+        have : w1 = w.receive_.1 := by rw [heq]
+        rw [this]; exact key
+      · rename_i w1 ev heq
+        have : w1 = w.receive_.1 := by rw [heq]
+        subst this
+        split <;> exact key
 
-theorem op_inv (w : W) (o : Op) (hi : Inv w) : Inv (w.op o).1 := by
+theorem op_inv (w : W) (d : Option Int) (o : Op) (hi : Inv w) : Inv (w.op d o).1 := by
   cases o with
-  | accept h => exact accept_inv w h hi
-  | close a => exact close_inv w a hi
-  | send k => exact sendMsg_inv w k hi
+  | accept h s b => exact accept_inv w d h s b hi
+  | close a r => exact close_inv w d a r hi
+  | send k => exact sendMsg_inv w d k hi
   | recv k => exact recv_inv w k hi
   | raiseHttp s => exact hi
   | raiseStatus s => exact hi
   | raiseExc => exact hi
+  | raiseBoom => exact hi
 
-theorem runScript_inv (sc : List (Op × Bool)) : ∀ (w : W) (log : List (Option Exc)), Inv w →
+theorem runScript_inv (sc : List Step) : ∀ (w : W) (log : List (Option Exc)), Inv w →
     Inv (runScript w sc log).1 := by
   induction sc with
   | nil => intro w log hi; exact hi
   | cons x rest ih =>
     intro w log hi
-    obtain ⟨o, c⟩ := x
+    obtain ⟨o, c, d⟩ := x
     unfold runScript
-    have h1 := op_inv w o hi
-    rcases hop : w.op o with ⟨w1, eo⟩
+    have h1 := op_inv w d o hi
+    rcases hop : w.op d o with ⟨w1, eo⟩
     rw [hop] at h1
     cases eo with
     | none => exact ih w1 _ h1
@@ -206,66 +257,108 @@ theorem runScript_inv (sc : List (Op × Bool)) : ∀ (w : W) (log : List (Option
       · exact ih w1 _ h1
       · exact h1
 
-theorem cleanup_inv (w : W) (hi : Inv w) : Inv (cleanup w).1 := by
+theorem cleanup_inv (w : W) (fd : Option Int) (hi : Inv w) : Inv (cleanup w fd).1 := by
   unfold cleanup
-  have h1 := close_inv w (.int w.errCloseCode) hi
-  rcases hc : w.close none (.int w.errCloseCode) with ⟨w1, eo⟩
+  have h1 := close_inv w fd (.int w.errCloseCode) false hi
+  rcases hc : w.close fd (.int w.errCloseCode) false with ⟨w1, eo⟩
   rw [hc] at h1
   cases eo with
   | none => exact h1
   | some e =>
-    cases e <;> first | exact h1 | exact close_inv w1 _ h1
+    cases e <;> first | exact h1 | exact close_inv w1 _ _ _ h1
 
-theorem handleException_inv (w : W) (e : Exc) (hi : Inv w) : Inv (handleException w e).1 := by
-  cases e <;> first | exact close_inv w _ hi | exact cleanup_inv w hi
+theorem handleException_inv (c : Cfg) (w : W) (e : Exc) (hi : Inv w) : Inv (handleException c w e).1 := by
+  have hclose : ∀ (w : W) (s : Int), Inv w → ∀ hl : List (Option Exc),
+      Inv (let (w', e') := w.close c.fd (.int (s + 3000)) false; ((w', hl, e') : W × List (Option Exc) × Option Exc)).1 := by
+    intro w s hi hl; exact close_inv w _ _ _ hi
+  have hclean : ∀ (w : W), Inv w →
+      Inv (let (w', e') := cleanup w c.fd; ((w', [], e') : W × List (Option Exc) × Option Exc)).1 := by
+    intro w hi; exact cleanup_inv w _ hi
+  cases e with
+  | httpError s => exact hclose w s hi []
+  | httpStatus s => exact hclose w s hi []
+  | boom =>
+    unfold handleException
+    cases hcu : c.custom with
+    | none => exact hclean w hi
+    | some hs =>
+      simp only
+      have h1 := runScript_inv hs w [] hi
+      rcases hr : runScript w hs [] with ⟨w1, hlog, eo⟩
+      rw [hr] at h1
+      cases eo with
+      | none => exact h1
+      | some e =>
+        cases e <;> first | exact h1 | exact hclose w1 _ h1 hlog
+  | _ => exact hclean w hi
 
-/-- **C17 `emitted_trace_legal`** -/
-theorem handle_inv (w : W) (script : Option (List (Op × Bool))) (hi : Inv w) : Inv (handle w script).1 := by
+theorem handle_inv (c : Cfg) (w : W) (script : Option (List Step)) (hi : Inv w) : Inv (handle c w script).w := by
   unfold handle
   cases script with
-  | none => exact handleException_inv w _ hi
+  | none => exact handleException_inv c w _ hi
   | some sc =>
     simp only
     have h1 := runScript_inv sc w [] hi
     rcases hr : runScript w sc [] with ⟨w1, log, eo⟩
     rw [hr] at h1
     cases eo with
-    | some e => exact handleException_inv w1 e h1
+    | some e => exact handleException_inv c w1 e h1
     | none =>
       simp only
-      have h2 := close_inv w1 .none h1
-      rcases hc : w1.close none .none with ⟨w2, eo2⟩
+      have h2 := close_inv w1 c.fd .none false h1
+      rcases hc : w1.close c.fd .none false with ⟨w2, eo2⟩
       rw [hc] at h2
       cases eo2 with
       | none => exact h2
-      | some e => exact handleException_inv w2 e h2
+      | some e => exact handleException_inv c w2 e h2
 
-theorem emitted_trace_legal (w : W) (script : Option (List (Op × Bool)))
+/-- **C17 `emitted_trace_legal`**: for every configuration, responder script (with per-op catch flags and observed
+    disconnect flags), inbox, fault position and kind: the events the server accepted form a word of
+    `connecting —accept→ open —send*→ open —close→ done` (`connecting —close→ done` is the 403 denial). -/
+theorem emitted_trace_legal (c : Cfg) (w : W) (script : Option (List Step))
     (h1 : w.st = .handshake) (h2 : w.sent = []) :
-    (M.run .connecting (okEvents (handle w script).1.sent)).isSome := by
-  obtain ⟨m, hm, _⟩ := (handle_inv w script (Inv.init w h1 h2)).legal
+    (M.run .connecting (okEvents (handle c w script).w.sent)).isSome := by
+  obtain ⟨m, hm, _⟩ := (handle_inv c w script (Inv.init w h1 h2)).legal
   rw [hm]; rfl
 
-#print axioms emitted_trace_legal
+theorem handleMw_inv (c : Cfg) (w : W) (mwReq mwRes : List Step) (r : Route) (hi : Inv w) :
+    Inv (handleMw c w mwReq mwRes r).w := by
+  unfold handleMw
+  cases r with
+  | responder sc => exact handle_inv c w _ hi
+  | unrouted => simp only; split <;> exact handle_inv c w _ hi
+  | noResponder => simp only; split <;> exact handle_inv c w _ hi
 
-/-! ### the connection is never left half-open: unless an exception escapes to the server, the session ends closed -/
+/-- the same with `process_request_ws` / `process_resource_ws` middleware and every routing outcome -/
+theorem emitted_trace_legal_mw (c : Cfg) (w : W) (mwReq mwRes : List Step) (r : Route)
+    (h1 : w.st = .handshake) (h2 : w.sent = []) :
+    (M.run .connecting (okEvents (handleMw c w mwReq mwRes r).w.sent)).isSome := by
+  obtain ⟨m, hm, _⟩ := (handleMw_inv c w mwReq mwRes r (Inv.init w h1 h2)).legal
+  rw [hm]; rfl
 
-theorem closeGo_closed (w : W) (code : Int) (h : (W.close.go none w code).2 = none) :
-    (W.close.go none w code).1.st = .closed := by
+/-! ### the connection is never left half-open: unless an exception escapes to the server (or the application's own error
+    handler took over), the session ends closed, denied, or known to be lost -/
+
+theorem closeGo_closed (w : W) (d : Option Int) (r : Bool) (code : Int) (h : (W.close.go d r w code).2 = none) :
+    (W.close.go d r w code).1.st = .closed ∨ d.isSome = true := by
   unfold W.close.go at h ⊢
   split
   · rename_i hc
     simpa [W.isClosed] using hc
   · rename_i hc
     simp only [hc] at h
-    rcases hsend : w.asgiSend (.close code (w.reasonCodes.contains code && w.supReason)) with ⟨w1, ok⟩
+    generalize Ev.close code ((r || w.reasonCodes.contains code) && w.supReason) = ev at h ⊢
+    rcases hsend : w.asgiSend ev with ⟨w1, ok⟩
     rw [hsend] at h
     cases ok
     · simp at h
-    · rfl
+    · left; rfl
 
-theorem close_closed (w : W) (a : CodeArg) (h : (w.close none a).2 = none) : (w.close none a).1.st = .closed := by
+theorem close_closed (w : W) (d : Option Int) (a : CodeArg) (r : Bool) (h : (w.close d a r).2 = none) :
+    (w.close d a r).1.st = .closed ∨ d.isSome = true := by
   unfold W.close at h ⊢
+  generalize w.stopPump = w0 at h ⊢
+  simp only at h ⊢
   split
   · simp at h
   · rename_i c
@@ -276,46 +369,241 @@ theorem close_closed (w : W) (a : CodeArg) (h : (w.close none a).2 = none) : (w.
       · rename_i h2; simp [h1, h2] at h
       · rename_i h2
         simp only [h1, h2, if_false, Bool.false_eq_true] at h
-        exact closeGo_closed w c h
-  · exact closeGo_closed w 1000 h
+        exact closeGo_closed w0 d r c h
+  · exact closeGo_closed w0 d r 1000 h
 
-theorem cleanup_closed (w : W) (h : (cleanup w).2 = none) : (cleanup w).1.st = .closed := by
+theorem cleanup_closed (w : W) (fd : Option Int) (h : (cleanup w fd).2 = none) :
+    (cleanup w fd).1.st = .closed ∨ fd.isSome = true := by
   unfold cleanup at h ⊢
-  have h1 := close_closed w (.int w.errCloseCode)
-  rcases hc : w.close none (.int w.errCloseCode) with ⟨w1, eo⟩
+  have h1 := close_closed w fd (.int w.errCloseCode) false
+  rcases hc : w.close fd (.int w.errCloseCode) false with ⟨w1, eo⟩
   rw [hc] at h h1
   cases eo with
   | none => exact h1 rfl
   | some e =>
     cases e with
-    | invalidCloseCode => exact close_closed w1 _ h
+    | invalidCloseCode => exact close_closed w1 _ _ _ h
     | _ => simp at h
 
-theorem handleException_closed (w : W) (e : Exc) (h : (handleException w e).2 = none) :
-    (handleException w e).1.st = .closed := by
-  cases e <;> first | exact close_closed w _ h | exact cleanup_closed w h
+theorem handleException_closed (c : Cfg) (hcu : c.custom = none) (w : W) (e : Exc) (h : (handleException c w e).2.2 = none) :
+    (handleException c w e).1.st = .closed ∨ c.fd.isSome = true := by
+  cases e with
+  | httpError s => exact close_closed w c.fd (.int (s + 3000)) false h
+  | httpStatus s => exact close_closed w c.fd (.int (s + 3000)) false h
+  | boom =>
+    unfold handleException at h ⊢
+    simp only [hcu] at h ⊢
+    exact cleanup_closed w _ h
+  | _ => exact cleanup_closed w _ h
 
-/-- **C17 `closed_unless_escaped`**: whatever the responder, the client and the server's `send` do, when
-    `_handle_websocket` returns normally the connection has been closed (or denied) or is known to be lost. -/
-theorem closed_unless_escaped (w : W) (script : Option (List (Op × Bool))) (h : (handle w script).2.2 = none) :
-    (handle w script).1.st = .closed := by
+/-- **C17 `closed_unless_escaped`**: with the default error handlers, whatever the responder, the client and the server's
+    `send` do, when `_handle_websocket` returns normally the connection has been closed (or denied), or the framework had
+    observed the client's disconnect. -/
+theorem closed_unless_escaped (c : Cfg) (hcu : c.custom = none) (w : W) (script : Option (List Step))
+    (h : (handle c w script).esc = none) :
+    (handle c w script).w.st = .closed ∨ c.fd.isSome = true := by
   unfold handle at h ⊢
   cases script with
-  | none => exact handleException_closed w _ h
+  | none => exact handleException_closed c hcu w _ h
   | some sc =>
     simp only at h ⊢
     rcases hr : runScript w sc [] with ⟨w1, log, eo⟩
     rw [hr] at h
     cases eo with
-    | some e => exact handleException_closed w1 e h
+    | some e => exact handleException_closed c hcu w1 e h
     | none =>
       simp only at h ⊢
-      have h2 := close_closed w1 .none
-      rcases hc : w1.close none .none with ⟨w2, eo2⟩
+      have h2 := close_closed w1 c.fd .none false
+      rcases hc : w1.close c.fd .none false with ⟨w2, eo2⟩
       rw [hc] at h h2
       cases eo2 with
       | none => exact h2 rfl
-      | some e => exact handleException_closed w2 e h
+      | some e => exact handleException_closed c hcu w2 e h
 
-#print axioms closed_unless_escaped
+theorem closed_unless_escaped_mw (c : Cfg) (hcu : c.custom = none) (w : W) (mwReq mwRes : List Step) (r : Route)
+    (h : (handleMw c w mwReq mwRes r).esc = none) :
+    (handleMw c w mwReq mwRes r).w.st = .closed ∨ c.fd.isSome = true := by
+  unfold handleMw at h ⊢
+  cases r with
+  | responder sc => exact closed_unless_escaped c hcu w _ h
+  | unrouted =>
+    simp only at h ⊢
+    split at h <;> split <;> first | exact closed_unless_escaped c hcu w _ h | contradiction
+  | noResponder =>
+    simp only at h ⊢
+    split at h <;> split <;> first | exact closed_unless_escaped c hcu w _ h | contradiction
+
+/-! ### the (state, operation) → error table, the close-code table and the error → close-code mapping -/
+
+theorem wrong_state_send (w : W) (d : Option Int) (k : Kind) :
+    (w.st = .handshake → w.sendMsg d k = (w, some .notAllowed)) ∧
+    (w.st = .closed → w.sendMsg d k = (w, some (wsd w.closeCode))) := by
+  constructor <;> intro h <;> simp [W.sendMsg, W.requireAccepted, h]
+
+theorem wrong_state_recv (w : W) (k : RecvKind) :
+    (w.st = .handshake → w.recv k = (w, some .notAllowed)) ∧
+    (w.st = .closed → w.recv k = (w, some (wsd w.closeCode))) := by
+  constructor <;> intro h <;> simp [W.recv, W.requireAccepted, h]
+
+theorem wrong_state_accept (w : W) (d : Option Int) (hd s b : Bool) (h : w.st ≠ .handshake ∨ d.isSome = true) :
+    w.accept d hd s b = (w, some .notAllowed) := by
+  unfold W.accept W.isClosed
+  rcases h with h | h
+  · cases hst : w.st <;> simp_all
+  · simp [h]
+
+/-- a send by an accepted socket whose pump has seen the disconnect raises `WebSocketDisconnected` with the client's code
+    and nothing is handed to the server -/
+theorem send_after_disconnect (w : W) (c : Int) (k : Kind) (h : w.st = .accepted) :
+    (w.sendMsg (some c) k).2 = some (wsd (some c)) ∧ (w.sendMsg (some c) k).1.sent = w.sent := by
+  simp [W.sendMsg, W.requireAccepted, W.send_, h]
+
+/-- `close()` after the connection was closed or is known to be lost sends nothing -/
+theorem close_after_closed_silent (w : W) (d : Option Int) (a : CodeArg) (r : Bool) (h : w.st = .closed ∨ d.isSome = true) :
+    (w.close d a r).1.sent = w.sent := by
+  have hic : ∀ w0 : W, w0.st = w.st → w0.sent = w.sent → ∀ code, (W.close.go d r w0 code).1.sent = w.sent := by
+    intro w0 h0 h1 code
+    unfold W.close.go W.isClosed
+    rcases h with h | h
+    · simp [h0, h, h1]
+    · simp [h, h1]
+  unfold W.close
+  have hw0 := stopPump_st w
+  have hw1 := stopPump_sent w
+  generalize w.stopPump = w0 at hw0 hw1
+  simp only
+  split
+  · exact hw1
+  · split
+    · exact hw1
+    · split
+      · exact hw1
+      · exact hic w0 hw0 hw1 _
+  · exact hic w0 hw0 hw1 _
+
+/-- the close-code validation table: exactly the codes < 1000, 1004-1006 and 1015-1999 are rejected -/
+theorem close_code_validation_exact (w : W) (d : Option Int) (c : Int) (r : Bool) :
+    (w.close d (.int c) r).2 = some .invalidCloseCode ↔ (c < 1000 ∨ (1004 ≤ c ∧ c ≤ 1006) ∨ (1015 ≤ c ∧ c ≤ 1999)) := by
+  unfold W.close
+  generalize w.stopPump = w0
+  simp only
+  by_cases h1 : c < 1000
+  · simp [h1]
+  · by_cases h2 : ((1015 ≤ c && c ≤ 1999) || (1004 ≤ c && c ≤ 1006)) = true
+    · simp only [h1, h2, if_true, if_false, true_iff]
+      simp only [Bool.or_eq_true, Bool.and_eq_true, decide_eq_true_eq] at h2
+      omega
+    · simp only [h1, h2, if_false, Bool.false_eq_true]
+      have : ¬ (c < 1000 ∨ (1004 ≤ c ∧ c ≤ 1006) ∨ (1015 ≤ c ∧ c ≤ 1999)) := by
+        simp only [Bool.or_eq_true, Bool.and_eq_true, decide_eq_true_eq] at h2
+        omega
+      have this' : ¬ (False ∨ (1004 ≤ c ∧ c ≤ 1006) ∨ (1015 ≤ c ∧ c ≤ 1999)) :=
+        fun h => this (h.elim False.elim Or.inr)
+      simp only [this', iff_false]
+      unfold W.close.go
+      split
+      · simp
+      · rcases w0.asgiSend _ with ⟨w1, ok⟩
+        cases ok
+        · simp only [Bool.false_eq_true, if_false]
+          cases w1.fault <;> simp [Fault.raw]
+        · simp
+
+def validCode (c : Int) : Bool := !(c < 1000 || (1015 ≤ c && c ≤ 1999) || (1004 ≤ c && c ≤ 1006))
+
+/-- `close(code)` with a valid code on a socket that is neither closed nor known to be lost, and a working `send`: exactly
+    one close event with that code is handed to the server (the reason only when the server supports it) -/
+theorem close_sends (w : W) (a : CodeArg) (r : Bool) (code : Int)
+    (ha : (a = .none ∧ code = 1000) ∨ (a = .int code ∧ validCode code = true))
+    (hnc : w.st ≠ .closed) (hf : w.failAt = none) :
+    (w.close none a r).1.sent = w.sent ++ [(.close code ((r || w.reasonCodes.contains code) && w.supReason), true)]
+    ∧ (w.close none a r).2 = none ∧ (w.close none a r).1.st = .closed ∧ (w.close none a r).1.closeCode = some code := by
+  have hgo : ∀ w0 : W, w0.st = w.st → w0.sent = w.sent → w0.failAt = none → w0.reasonCodes = w.reasonCodes →
+      w0.supReason = w.supReason →
+      (W.close.go none r w0 code).1.sent = w.sent ++ [(.close code ((r || w.reasonCodes.contains code) && w.supReason), true)]
+      ∧ (W.close.go none r w0 code).2 = none ∧ (W.close.go none r w0 code).1.st = .closed
+      ∧ (W.close.go none r w0 code).1.closeCode = some code := by
+    intro w0 h0 h1 h2 h3 h4
+    have : (w0.st == S.closed) = false := by rw [h0]; simpa using hnc
+    simp [W.close.go, W.isClosed, W.asgiSend, this, h1, h2, h3, h4]
+  unfold W.close
+  have e0 := stopPump_st w
+  have e1 := stopPump_sent w
+  have e2 : w.stopPump.failAt = none := by rw [stopPump_failAt, hf]
+  have e3 := stopPump_reasonCodes w
+  have e4 := stopPump_supReason w
+  generalize w.stopPump = w0 at e0 e1 e2 e3 e4
+  rcases ha with ⟨rfl, rfl⟩ | ⟨rfl, hv⟩
+  · exact hgo w0 e0 e1 e2 e3 e4
+  · simp only [validCode, Bool.not_eq_true', Bool.or_eq_false_iff, decide_eq_false_iff_not] at hv
+    obtain ⟨⟨hv1, hv2⟩, hv3⟩ := hv
+    simp only [hv1, hv2, hv3, if_false, Bool.false_eq_true, Bool.or_self]
+    exact hgo w0 e0 e1 e2 e3 e4
+
+theorem validCode_http (s : Int) (h : 0 ≤ s ∧ s ≤ 999) : validCode (s + 3000) = true := by
+  simp only [validCode, Bool.not_eq_true', Bool.or_eq_false_iff, Bool.and_eq_false_iff, decide_eq_false_iff_not]
+  omega
+
+/-- an invalid code is rejected before anything else happens (only the pump has been stopped) -/
+theorem close_invalid (w : W) (d : Option Int) (c : Int) (r : Bool) (h : validCode c = false) :
+    w.close d (.int c) r = (w.stopPump, some .invalidCloseCode) := by
+  unfold W.close
+  simp only [validCode, Bool.not_eq_false', Bool.or_eq_true, decide_eq_true_eq] at h
+  by_cases h1 : c < 1000
+  · simp [h1]
+  · have h2 : ((1015 ≤ c && c ≤ 1999) || (1004 ≤ c && c ≤ 1006)) = true := by
+      rcases h with (h | h) | h
+      · exact absurd h h1
+      · simp [h]
+      · simp [h]
+    simp only [h1, if_false, h2, if_true]
+
+/-- **error → close code (1)**: with a working `send`, a socket not yet closed and no observed disconnect, `HTTPError(s)` and
+    `HTTPStatus(s)` (0 ≤ s ≤ 999; an unrouted path is `HTTPError 404`, a missing responder `HTTPError 405`) close the
+    socket with exactly one close event, code `3000 + s` -/
+theorem http_error_close_code (c : Cfg) (w : W) (s : Int) (hs : 0 ≤ s ∧ s ≤ 999) (hfd : c.fd = none)
+    (hnc : w.st ≠ .closed) (hf : w.failAt = none) :
+    ∀ e, e = Exc.httpError s ∨ e = Exc.httpStatus s →
+      (handleException c w e).1.sent = w.sent ++ [(.close (s + 3000) (w.reasonCodes.contains (s + 3000) && w.supReason), true)]
+      ∧ (handleException c w e).2.2 = none := by
+  have key := close_sends w (.int (s + 3000)) false (s + 3000) (Or.inr ⟨rfl, validCode_http s hs⟩) hnc hf
+  simp only [Bool.false_or] at key
+  intro e he
+  rcases he with rfl | rfl <;> (unfold handleException; rw [hfd]; exact ⟨key.1, key.2.1⟩)
+
+/-- **error → close code (2)**: every other exception (no custom handler) closes with `error_close_code`, or with 3011 when
+    the configured code is not a valid close code -/
+theorem unexpected_error_close_code (c : Cfg) (w : W) (e : Exc) (hfd : c.fd = none) (hcu : c.custom = none)
+    (he : (∀ s, e ≠ .httpError s) ∧ (∀ s, e ≠ .httpStatus s))
+    (hnc : w.st ≠ .closed) (hf : w.failAt = none) :
+    let code := if validCode w.errCloseCode then w.errCloseCode else 3011
+    (handleException c w e).1.sent = w.sent ++ [(.close code (w.reasonCodes.contains code && w.supReason), true)]
+    ∧ (handleException c w e).2.2 = none := by
+  have hcl : let code := if validCode w.errCloseCode then w.errCloseCode else 3011
+      (cleanup w none).1.sent = w.sent ++ [(.close code (w.reasonCodes.contains code && w.supReason), true)]
+      ∧ (cleanup w none).2 = none := by
+    unfold cleanup
+    by_cases hv : validCode w.errCloseCode = true
+    · have key := close_sends w (.int w.errCloseCode) false w.errCloseCode (Or.inr ⟨rfl, hv⟩) hnc hf
+      simp only [Bool.false_or] at key
+      rcases hc : w.close none (.int w.errCloseCode) false with ⟨w1, eo⟩
+      rw [hc] at key
+      simp only at key
+      obtain ⟨k1, k2, _, _⟩ := key
+      subst k2
+      simp only [hv, if_true]
+      exact ⟨k1, trivial⟩
+    · have hv' : validCode w.errCloseCode = false := by simpa using hv
+      rw [close_invalid w none w.errCloseCode false hv']
+      simp only [hv', Bool.false_eq_true, if_false]
+      have key := close_sends w.stopPump (.int 3011) false 3011 (Or.inr ⟨rfl, by decide⟩)
+        (by rw [stopPump_st]; exact hnc) (by rw [stopPump_failAt]; exact hf)
+      simp only [Bool.false_or, stopPump_sent, stopPump_reasonCodes, stopPump_supReason] at key
+      exact ⟨key.1, key.2.1⟩
+  cases e with
+  | httpError s => exact absurd rfl (he.1 s)
+  | httpStatus s => exact absurd rfl (he.2 s)
+  | boom => unfold handleException; simp only [hcu, hfd]; exact hcl
+  | _ => unfold handleException; simp only [hfd]; exact hcl
+
 end Ws
